@@ -62,6 +62,8 @@ def main():
     ap.add_argument("--tier", default="quick")
     ap.add_argument("--out", default=os.path.join(V, "seeded", "RECHECK.json"))
     ap.add_argument("--props", default=None)
+    ap.add_argument("--update-meta", action="store_true",
+                    help="record the result as `recheck` in seeded/<name>/meta.json (after a check was strengthened)")
     a = ap.parse_args()
     names = a.names or sorted(os.path.basename(os.path.dirname(f))
                               for f in glob.glob(os.path.join(V, "seeded", "*", "meta.json")))
@@ -69,6 +71,14 @@ def main():
     for n in names:
         out[n] = one(n, a.tier, a.props.split(",") if a.props else None)
         print(n, json.dumps(out[n])[:300], flush=True)
+        if a.update_meta and "error" not in out[n]:
+            mp = os.path.join(V, "seeded", n, "meta.json")
+            meta = json.load(open(mp))
+            rc = meta.setdefault("recheck", {})
+            rc.update({p: {k: v for k, v in c.items() if k != "tail"} for p, c in out[n].items()})
+            meta["caught_by_now"] = sorted(set(meta.get("caught_by", [])) |
+                                           {p for p, c in rc.items() if c.get("exit") == 1})
+            json.dump(meta, open(mp, "w"), indent=1)
         json.dump(out, open(a.out, "w"), indent=1, sort_keys=True)
     caught = [n for n in names if any(isinstance(c, dict) and c.get("exit") == 1 for c in out[n].values())]
     print(f"{len(caught)}/{len(names)} caught; quiet: {[n for n in names if n not in caught]}")
